@@ -88,7 +88,18 @@ def scanText (cfg : ScanCfg) (t : Text) (st : Nat) (m : Metrics) (base : Pos) :
           let ls := k == kWs && chunk.any (·.code == 10)
           (some (⟨k, if cfg.stateful then count else 0⟩, adv), 2 * (count + 1) + (if ls then 1 else 0))
 
+/-- `metrics.end_position(&text[..b], Pos::ZERO)`.  (Slicing at a byte that is not a character
+boundary panics in Rust; the positions a lexer holds come from the scanner and are boundaries, so
+that branch is unreachable and is totalised here.) -/
+def measureText (t : Text) (m : Metrics) (b : Nat) : Pos :=
+  match splitAtByte t b with
+  | some (pre, _) =>
+    (match endPosition m pre Pos.zero with
+     | .ok q => q
+     | .panic => ⟨b, 0, 0⟩)
+  | none => ⟨b, 0, 0⟩
+
 def lexEnv (cfg : ScanCfg) (t : Text) : LexEnv Nat Tok :=
-  { scan := scanText cfg t, passes := passesMask }
+  { scan := scanText cfg t, passes := passesMask, measure := measureText t }
 
 end Tephra
